@@ -78,6 +78,7 @@ class ReversingChecker(CustomCallChecker):
         return f"__{name[1:]}__"
 
     def synthesize(self, args: list[ast.expr]) -> tuple[ast.expr, Type]:
+        check_num_args(2, len(args), self.node)
         [self_arg, other_arg] = args
         self_arg, self_ty = ExprSynthesizer(self.ctx).synthesize(self_arg)
         f = self.ctx.globals.get_instance_func(self_ty, self.parse_name())
